@@ -807,16 +807,10 @@ func registerImportChecks() {
 	})
 }
 
+// the Go specification's identifier: a letter (Unicode category L, or _) followed by letters and
+// decimal digits (category Nd) — other numbers (superscripts, fractions, Roman numerals) are not
 func isGoIdent(s string) bool {
-	if s == "" {
-		return false
-	}
-	for i, r := range s {
-		if !(r == '_' || (r >= 'a' && r <= 'z') || (r >= 'A' && r <= 'Z') || (i > 0 && r >= '0' && r <= '9') || r > 0x7f) {
-			return false
-		}
-	}
-	return true
+	return token.IsIdentifier(s) || token.IsKeyword(s)
 }
 
 func isKeywordOrUniverse(s string) bool {
